@@ -45,9 +45,21 @@ Proof.
   destruct up, del; bridge.
 Qed.
 
+(* equal up to arithmetic: descend through equal heads, close leaves with lia *)
+Ltac deq := first [ reflexivity | lia |
+  match goal with
+  | |- ?f ?a = ?f ?b => apply (f_equal f); deq
+  | |- ?f ?a ?b = ?f ?c ?d => apply (f_equal2 f); deq
+  end ].
+
+Ltac Zify.zify_post_hook ::= Z.to_euclidean_division_equations.
 Lemma br_dsq_psc up s0 s1 :
   gen_brick_dsq_psc up s0 s1 = (Z.of_nat (brick_dsquare up), brick_psc up s0 s1).
-Proof. unfold gen_brick_dsq_psc, brick_dsquare, brick_psc. destruct up; reflexivity. Qed.
+Proof.
+  unfold gen_brick_dsq_psc, brick_dsquare, brick_psc.
+  destruct up; cbv zeta; (apply f_equal2; [first [reflexivity | cbn; lia] | first [reflexivity | bridge]]).
+Qed.
+Ltac Zify.zify_post_hook ::= idtac.
 
 Lemma br_keep_link psc q1 s i : gen_brick_keep_link psc q1 s i = brick_keep_link psc q1 s i.
 Proof. unfold gen_brick_keep_link, brick_keep_link. destruct psc; bridge. Qed.
@@ -85,7 +97,7 @@ Lemma br_ofc_i2c s0 s1 i : gen_ofc_index_to_coord s0 s1 i = ofc_index_to_coord s
 Proof.
   unfold gen_ofc_index_to_coord, ofc_index_to_coord, ofc_face_y, ofc_face_x. cbv zeta.
   destruct (i <? s0 * s1); [reflexivity|]. change (2 =? 2) with true. cbv iota.
-  repeat f_equal; lia.
+  deq.
 Qed.
 Lemma br_ofc_f2i s0 s1 x y : gen_ofc_face_to_index s0 s1 x y = ofc_face_to_index s0 s1 x y.
 Proof. reflexivity. Qed.
